@@ -119,6 +119,13 @@ C19_NewQ == {SD("dict", NoVal, <<<<C19_KA, c>>>>) :
                      \cup {C19_MdAll(SD("dict", NoVal, <<<<C19_KB, C19_L("2")>>>>)), WithTag(SD("dict", NoVal, <<>>), "del")}}
 C19_HistQ == SetToSeq(C19_OldQ) \o SetToSeq(C19_NewQ)
 C19_HistRangeQ == << <<1, Cardinality(C19_OldQ)>>, <<Cardinality(C19_OldQ) + 1, Cardinality(C19_OldQ) + Cardinality(C19_NewQ)>> >>
+\* ... and a still narrower newer set for the run with mutations of either side
+C19_NewM == {SD("dict", NoVal, <<<<C19_KA, c>>>>) :
+               c \in TagAll({SD("dict", NoVal, <<<<C19_KB, WithTag(SD("list", NoVal, <<<<IKey(0), C19_L("2")>>>>), "merge")>>>>),
+                             SD("dict", NoVal, <<<<C19_KA, SD("dict", NoVal, <<<<C19_KB, C19_L("2")>>>>)>>>>)}, {"del", "notnew", "unsafe"})
+                     \cup {WithTag(SD("dict", NoVal, <<>>), "del")}}
+C19_HistM == SetToSeq(C19_OldQ) \o SetToSeq(C19_NewM)
+C19_HistRangeM == << <<1, Cardinality(C19_OldQ)>>, <<Cardinality(C19_OldQ) + 1, Cardinality(C19_OldQ) + Cardinality(C19_NewM)>> >>
 C19_Hist  == SetToSeq(C19_Old) \o SetToSeq(C19_New)
 C19_HistRange == << <<1, Cardinality(C19_Old)>>, <<Cardinality(C19_Old) + 1, Cardinality(C19_Old) + Cardinality(C19_New)>> >>
 
